@@ -113,6 +113,26 @@ def run(res, ctx):
                         res.violation("findings differ between two channels of the same program",
                                       {"program": src, "a": {"channel": ref[2], "variant": ref[1], "findings": [list(x) for x in ref[0]]},
                                        "b": {"channel": chan, "variant": label, "findings": [list(x) for x in fs], "source_hex": raw.hex()}})
+        # ---- (1b) size: a program larger than a pipe buffer (64 KiB on Linux), with findings in its first and in its LAST lines, piped on stdin (a real pipe
+        #      with a writer that delivers it in pieces) and scanned from a file (seeded change C19-m7 capped the unbuffered stdin read: one read(2) returned
+        #      what the pipe held, the rest of the program was never scanned)
+        for size_label, nrows in (("200KiB", 6500), ("70KiB", 2300)) if not thorough else (("1MiB", 34000), ("200KiB", 6500), ("70KiB", 2300), ("64KiB+1", 2130)):
+            big = "import pickle\nTABLE = [\n" + "".join("    (%5d, 'row-%05d', %d.5),\n" % (i, i, i) for i in range(nrows)) + "]\nimport subprocess\nsubprocess.Popen(cmd, shell=True)\nassert TABLE\n"
+            outs = {}
+            for chan in ("file", "stdin"):
+                r = scan_file(scratch, big.encode()) if chan == "file" else scan_stdin(big.encode())
+                res.case(("big", size_label, chan), True)
+                res.count("big-program:" + chan)
+                try:
+                    fs, errs = findings_of_json(r["out"])
+                    outs[chan] = (fs, errs)
+                except Exception:
+                    res.violation("no JSON report for a large program through this channel", {"channel": chan, "size": len(big), "exit": r["exit"], "exc": r["exc"], "err": r["err"][-300:]})
+            if len(outs) == 2 and ([f[:6] for f in outs["file"][0]] != [f[:6] for f in outs["stdin"][0]] or bool(outs["file"][1]) != bool(outs["stdin"][1])):
+                res.violation("findings of a large program differ between file and stdin",
+                              {"program": "import pickle / TABLE = [ %d rows ] / import subprocess / subprocess.Popen(cmd, shell=True) / assert TABLE  (%d bytes)" % (nrows, len(big)),
+                               "file": {"findings": [list(x[:4]) for x in outs["file"][0]], "errors": outs["file"][1]},
+                               "stdin": {"findings": [list(x[:4]) for x in outs["stdin"][0]], "errors": outs["stdin"][1]}})
         # ---- (2) bidi characters everywhere
         positions = [("comment", "x = 1  # note {c}hidden\ny = 2\n", 1), ("string", "x = 1\ns = 'ab{c}cd'\n", 2), ("identifier-adjacent", "x = 1\nvalue = call({c!s}) if False else 0\n".replace("{c!s}", "'{c}'"), 2),
                      ("first-line", "# {c}\nx = 1\n", 1), ("last-line-no-newline", "x = 1\n# end {c}", 2), ("docstring", '"""doc {c} text"""\nx = 1\n', 1),
